@@ -146,6 +146,9 @@ def lookup_rules(prog, an, rep):
                           'positional arguments')
             continue
         rev, key = call.args[0], call.args[1]
+        if isinstance(rev, ast.Name):
+            # the tip kept in a local just before the lookup
+            rev = chained_assign_value(u, rev.id) or rev
         # revision = <elem>.get_latest_commit() evaluated in the same call
         ok_rev = isinstance(rev, ast.Call) and \
             isinstance(rev.func, ast.Attribute) and \
